@@ -95,7 +95,7 @@ def ob_eligibility(report):
                 holder['side'] = ex_.results
                 ex_.results = saved
             ex_.opaque_call(p, call, k)
-        ex, fn, res = run_check_fn([(r'as Iterator>::filter$', m_filter)], depth=3)
+        ex, fn, res = run_check_fn([(r"as Iterator>::filter$", m_filter)], depth=7)
         ex2 = ex
         if 'done' not in holder:
             return ob.done([ex], 'inconclusive', 'no Iterator::filter over the known-peer table found', paths=len(res))
@@ -170,7 +170,7 @@ def ob_dial_loop(report):
             k(p, Sym(f'addr({vname(v)})', 'Address'))
         models = [(r'ConnectionManager::dial_peer$', m_dial_peer), (r'oneshot::channel$', m_channel), (r'Take as Iterator>::next$', m_next),
                   (r'as Iterator>::take$', m_take), (r'JoinSet::len$', m_jlen), (r'Vec::remove$', m_vec_remove)]
-        ex, fn, res = run_check_fn(models, unroll=2, depth=3)
+        ex, fn, res = run_check_fn(models, unroll=2, depth=6)
         bf = struct_fields(CM, 'DialBackoffState')
         maxout = None
         n_iter = 0
@@ -337,7 +337,7 @@ def ob_retain(report):
             ex_.opaque_call(p, call, k)
         models = [(r'oneshot::Receiver::try_recv$', m_try_recv), (r'Duration::from_millis$', m_from_millis), (r'Duration::saturating_mul$', m_sat_mul),
                   (r'Instant as Add>::add$', m_add), (r'<usize as TryInto>::try_into$', m_try_into), (r'HashMap::retain$', m_retain)]
-        ex, fn, res = run_check_fn(models, depth=4)
+        ex, fn, res = run_check_fn(models, depth=7)
         ex2 = ex
         if 'done' not in holder:
             return ob.done([ex], 'inconclusive', 'pending_dials.retain(..) not found', paths=len(res))
